@@ -273,6 +273,7 @@ C01_SameItemsSameView_C == \A p \in hp.seen : p[1] = DPost.valid => p[2] = DPost
 C01_SyncReaches_A == Op("Synced") /\ HasObs(Post) /\ ~Damaged /\ HasObs(ob[E.x.peer]) /\ E.x.peer \notin h.damaged
                        /\ ~Post.staging /\ ~ob[E.x.peer].staging   \* refresh refuses to run on staged changes (C15)
 C01_SyncReaches_C ==
+    /\ E.x.converged                      \* the exchange loop reached a round in which nobody learned anything
     /\ der[E.x.peer].valid = DPost.valid
     /\ der[E.x.peer].view = DPost.view
     /\ DPost.applied = DPost.ccn /\ der[E.x.peer].applied = der[E.x.peer].ccn
